@@ -20,9 +20,10 @@
                        `simplify_no_error_outside_class` / `simplify_no_error_outside_risk`, `line2_total`,
                        `sigmaTRDomain_no_error`, `transportFactors_no_error`; `sigmaTR_sound`
     §6 Algorithm 3     `ctfTR_zero_only_from_simplify`, `ctfTR_answer_shape`, `ctfTR_event_shape`,
-                       `ctfTR_no_internal_error_of_parts` / `ctfTR_no_internal_error_partial` (Algorithm 3 never raises
-                       outside its crash classes, relative to `QGood`), `ctfTR_answers_or_fails`
-  OPEN (stated below): ctfTR_no_internal_error without `QGood`, ctfTRu_sound, ctfTR_sound.
+                       `ctfTR_q_good` (Q of Algorithm 2 is never Zero() and has the expected vocabulary),
+                       `ctfTR_no_internal_error_partial` (Algorithm 3 never raises outside its crash classes),
+                       `ctfTR_answers_or_fails`
+  OPEN (stated below): ctfTR_no_internal_error on the crash classes (false on one, open on two), ctfTRu_sound, ctfTR_sound.
 
   Reading guide for §5 (definitions in Y0/Lemmas/CtfTrSimplify.lean, CtfTrLine2.lean, CtfTrSigma.lean, CtfTrTotal.lean):
     Reflexive e      := e.any fun p => p.1.ivs.any (·.name == p.1.name)          some event variable is `Y_y`
@@ -43,6 +44,7 @@ import Y0.Model.CtfTr
 import Y0.Props.C19
 import Y0.Lemmas.CtfTrTotal
 import Y0.Lemmas.CtfTrAlg3Total
+import Y0.Lemmas.CtfTrAlg3QGood
 
 namespace Y0
 namespace CtfTr
@@ -657,19 +659,39 @@ theorem ctfTR_event_shape (target : MG Name) (ds : List Domain) (o c : Event) (x
     · exact List.mem_append_left _ h'
     · exact List.mem_append_right _ (hsub.subset h')
 
-/-- **C09, "never another error", Algorithm 3** (composition theorem; `…_of_parts`: the last hypothesis `QGood` is a
-statement about the expression returned by Algorithm 2 that is not proved here, see the OPEN block below).
-An input accepted by the conditional validator, on graphs built by `from_edges`, with query variables as the public
-wrapper builds them and selection diagrams that agree with the target graph (`EventVarsPlain`, `DomainsAgree`: the
-hypotheses of `ctfTRu_no_internal_error_partial`), is answered or refused — `ctfTR` returns no error at all — outside the
-crash classes, each a decidable predicate on the input:
+/-- **the expression `Q` of Algorithm 2 for `D*` is never `Zero()` and has the expected vocabulary** (`QGood`): it is a
+`Sum.safe` of a `Product.safe` of expressions that Tian's IDENTIFY builds from the domains' distributions, each a
+Probability / Sum / Product / Fraction over variables of its domain's distribution and plain graph vertices
+(Y0/Lemmas/CtfTrAlg3Q.lean: `identify_good`).  So the `Fraction` constructor of line 4 never raises
+`ZeroDivisionError`, and the third final check passes when the vertices are variables of the distributions. -/
+theorem ctfTR_q_good (target : MG Name) (ds : List Domain) (o c : Event)
+    (hv : validateC target ds o c = .ok ()) (hwf : target.WF) (hds : ∀ d ∈ ds, d.graph.WF)
+    (hbiT : ∀ d ∈ ds, ∀ a b, d.graph.BiEdge a b → Trso.isTnode a = false) (hplain : EventVarsPlain (o ++ c)) :
+    QGood target ds o c :=
+  qGood_holds target ds o c hv hwf hds hbiT hplain
+
+/-- **C09, "never another error", Algorithm 3.**  An input accepted by the conditional validator, on graphs built by
+`from_edges`, with query variables as the public wrapper builds them and selection diagrams that agree with the target
+graph (`EventVarsPlain`, `DomainsAgree`: the hypotheses of `ctfTRu_no_internal_error_partial`), is answered or refused —
+`ctfTR` returns no error at all — outside the crash classes, each a decidable predicate on the input:
 * `OutcomesFound = false`: some outcome variable `Y_x` is not found in the ancestral components under its own name
   (they store `‖Y_x‖` of the graph without the edges out of the conditioned ancestors): `ValueError('empty list for the
   event')` from Algorithm 2's validator when no outcome is found, `KeyError` of the fifth final check when some are
   (findings `crash:ctfTR-derived-event-rejected`, `crash:ctfTR-final-check`);
 * `DstarOneWorld = false`: `D*` names a vertex in two worlds (then the dict of the final checks keeps one of two values);
 * `OutcomeNotCondition = false`: an outcome shares its vertex with a condition (fifth final check);
-and provided every vertex is a variable of some domain's distribution (`PopsCoverNodes`, true of `PP[π](V)`). -/
+and provided every vertex is a variable of some domain's distribution (`PopsCoverNodes`, true of `PP[π](V)`, the
+distributions the public wrapper `CFTDomain` builds; the validator checks it by NAME only). -/
+theorem ctfTR_no_internal_error_partial (target : MG Name) (ds : List Domain) (o c : Event)
+    (hv : validateC target ds o c = .ok ()) (hwf : target.WF) (hds : ∀ d ∈ ds, d.graph.WF)
+    (hdom : DomainsAgree target ds) (hplain : EventVarsPlain (o ++ c))
+    (hfound : OutcomesFound target o c = true) (hone : DstarOneWorld target o c = true)
+    (hdisj : OutcomeNotCondition o c = true) (hpop : PopsCoverNodes target ds) :
+    ∀ err, ctfTR target ds o c ≠ .error err :=
+  ctfTR_total_of_parts target ds o c hv hwf hds hdom hplain hfound hone hdisj hpop
+    (qGood_holds target ds o c hv hwf hds (fun d hd => (hdom d hd).2) hplain)
+
+/-- the composition behind it, with the facts about `Q` as a hypothesis (`QGood`; holds by `ctfTR_q_good`) -/
 theorem ctfTR_no_internal_error_of_parts (target : MG Name) (ds : List Domain) (o c : Event)
     (hv : validateC target ds o c = .ok ()) (hwf : target.WF) (hds : ∀ d ∈ ds, d.graph.WF)
     (hdom : DomainsAgree target ds) (hplain : EventVarsPlain (o ++ c))
@@ -678,28 +700,17 @@ theorem ctfTR_no_internal_error_of_parts (target : MG Name) (ds : List Domain) (
     ∀ err, ctfTR target ds o c ≠ .error err :=
   ctfTR_total_of_parts target ds o c hv hwf hds hdom hplain hfound hone hdisj hpop hq
 
-/-- the same with the two non-syntactic hypotheses in their decidable form (they are checked by running lines 1-3) -/
-theorem ctfTR_no_internal_error_partial (target : MG Name) (ds : List Domain) (o c : Event)
-    (hv : validateC target ds o c = .ok ()) (hwf : target.WF) (hds : ∀ d ∈ ds, d.graph.WF)
-    (hdom : DomainsAgree target ds) (hplain : EventVarsPlain (o ++ c))
-    (hfound : OutcomesFound target o c = true) (hone : DstarOneWorld target o c = true)
-    (hdisj : OutcomeNotCondition o c = true) (hpop : popsCoverCheck target ds = true)
-    (hq : qGoodCheck target ds o c = true) :
-    ∀ err, ctfTR target ds o c ≠ .error err :=
-  ctfTR_total_of_parts target ds o c hv hwf hds hdom hplain hfound hone hdisj
-    (popsCover_of_check target ds hpop) (qGood_of_check target ds o c hq)
-
 /-- with the trichotomy: such an input is answered or refused -/
 theorem ctfTR_answers_or_fails (target : MG Name) (ds : List Domain) (o c : Event)
     (hv : validateC target ds o c = .ok ()) (hwf : target.WF) (hds : ∀ d ∈ ds, d.graph.WF)
     (hdom : DomainsAgree target ds) (hplain : EventVarsPlain (o ++ c))
     (hfound : OutcomesFound target o c = true) (hone : DstarOneWorld target o c = true)
-    (hdisj : OutcomeNotCondition o c = true) (hpop : PopsCoverNodes target ds) (hq : QGood target ds o c) :
+    (hdisj : OutcomeNotCondition o c = true) (hpop : PopsCoverNodes target ds) :
     (∃ a, ctfTR target ds o c = .ok (some a)) ∨ ctfTR target ds o c = .ok none := by
   rcases ctfTR_trichotomy target ds o c hv with h | h | ⟨err, herr, _⟩
   · exact Or.inl h
   · exact Or.inr h
-  · exact absurd herr (ctfTR_no_internal_error_of_parts target ds o c hv hwf hds hdom hplain hfound hone hdisj hpop hq err)
+  · exact absurd herr (ctfTR_no_internal_error_partial target ds o c hv hwf hds hdom hplain hfound hone hdisj hpop err)
 
 /-- the parts, for reference: lines 1-2 never raise (`line2C_ok`), Algorithm 2's validator accepts a non-empty `D*`
 (`validateU_dstar`), and line 4 never raises under the stated facts (`line4C_ok`) -/
@@ -709,19 +720,20 @@ theorem ctfTR_line2_total (target : MG Name) (hwf : target.WF) (o c : Event)
   obtain ⟨_, dstar, dNames, _, h, _⟩ := line2C_ok target hwf o c ho hc
   exact ⟨dstar, dNames, h⟩
 
--- OPEN: ctfTR_no_internal_error (Algorithm 3, without the hypothesis `QGood`)
+-- OPEN: ctfTR_no_internal_error (Algorithm 3, for every validated input)
 --   theorem ctfTR_no_internal_error (hv : validateC target ds o c = .ok ()) (hwf : target.WF) (hds : ∀ d ∈ ds, d.graph.WF)
---       (hdom : DomainsAgree target ds) (hplain : EventVarsPlain (o ++ c)) (hfound : OutcomesFound target o c = true)
---       (hone : DstarOneWorld target o c = true) (hdisj : OutcomeNotCondition o c = true)
---       (hpop : PopsCoverNodes target ds) : ∀ err, ctfTR target ds o c ≠ .error err
---   Missing link, isolated as the Prop `QGood`: the expression Q that Algorithm 2 returns for D* (a `Sum.safe` of a
---   `Product.safe` of the expressions Tian's IDENTIFY builds from the domains' distributions) is not `Zero()` (else
---   `Fraction(…, Zero())` raises ZeroDivisionError) and mentions only graph vertices and variables of the domains'
---   distributions (third final check).  For a concrete input both are decided by running lines 1-3 (`qGoodCheck`,
---   `ctfTR_no_internal_error_partial`); the correspondence never saw either exception.
---   FALSE without the class hypotheses: witnesses `a3Miss` (OutcomesFound = false, ValueError) below, confirmed on the Python.
---   Whether `DstarOneWorld = false` is a real crash class is open too: in every such run seen so far Algorithm 2 answers
---   FAIL (the two copies of the vertex land in one ctf-factor with inconsistent subscripts) before line 4 is reached.
+--       (hdom : DomainsAgree target ds) (hplain : EventVarsPlain (o ++ c)) (hpop : PopsCoverNodes target ds) :
+--       ∀ err, ctfTR target ds o c ≠ .error err
+--   FALSE of the current code without `OutcomesFound`: witness `a3Miss` below (ValueError from Algorithm 2's validator on
+--   the empty D*), confirmed on the Python (findings crash:ctfTR-derived-event-rejected, crash:ctfTR-final-check).
+--   OPEN whether the two other class hypotheses of `ctfTR_no_internal_error_partial` are needed:
+--   * `DstarOneWorld`: in every run seen so far with a vertex in two worlds, Algorithm 2 answers FAIL (the two copies land
+--     in one ctf-factor with inconsistent subscripts) before line 4 is reached; proving it needs the ctf-factor grouping
+--     of line 2 of Algorithm 2 on the simplified event;
+--   * `OutcomeNotCondition`: the fifth final check then needs "the outcome's vertex occurs in Q", i.e. a LOWER bound on the
+--     variables of IDENTIFY's expressions (only the upper bound `QGood` is proved).
+--   No run of ./check C09 produced an exception on an input with `OutcomesFound = true` (4371 conditional cases of the
+--   quick tier, seed 0: all 1785 internal errors have `OutcomesFound = false`).
 
 /-! ### non-vacuity for Algorithm 3: Example 4.5-like `P*(y_x | x')` on figure 2a (corpus), and a crash-class witness -/
 
@@ -744,7 +756,7 @@ example : ∀ err, ctfTR fig2a [fig2dom1, fig2dom2] a3Out a3Cond ≠ .error err 
         simp only [List.mem_cons, List.not_mem_nil, or_false] at hd
         rcases hd with rfl | rfl <;> exact MG.wf_fromEdges _ _ _)
     fig2_domainsAgree (by unfold EventVarsPlain; decide) (by decide +kernel) (by decide +kernel) (by decide +kernel)
-    (by decide +kernel) (by decide +kernel)
+    (popsCover_of_check _ _ (by decide +kernel))
 
 /-- the returned event of the example is `Y = y, X = x'` -/
 example : (match ctfTR fig2a [fig2dom1, fig2dom2] a3Out a3Cond with
